@@ -1,6 +1,6 @@
 (* Property C04: the reported search score equals the exact minimax value (pruning, ordering, lazy evaluation are transparent). *)
 From Coq Require Import ZArith List Bool Permutation.
-Require Import Base Generated Position Attack Make Gen Count Eval Search SearchProofs.
+Require Import Base Generated Position Attack Make Gen Count Eval Search SearchProofs SearchImp SearchImpValue SearchStmt.
 Open Scope Z_scope.
 
 (* any move ordering (killers, PV bonus, any sort): only its being a permutation is used *)
@@ -28,7 +28,24 @@ Theorem C04_root_value : forall order, is_ordering order -> forall d p r one v,
   - InfinityScore < v -> sv r = v.
 Proof. exact root_search_value. Qed.
 
+(* the same on the state machine with position stack, killer table, oracles (never interrupted: all consumed oracle values false) *)
+Theorem C04_state_machine : forall order, is_ordering2 order -> forall log_interval d cand st a b depth r p v,
+  a < b -> - InfinityScore <= a -> b <= InfinityScore -> quiet st -> top st = Ok p ->
+  alpha_beta_i order log_interval d cand st a b depth = Ok r -> minimax d p depth = Ok v -> tree_ok d p depth -> bc a b (iv r) v.
+Proof. exact alpha_beta_i_value. Qed.
+Theorem C04_state_machine_root : forall order, is_ordering2 order -> forall log_interval d cand st r one p v,
+  quiet st -> top st = Ok p -> root_search_i order log_interval (S d) cand st = Ok (r, one) -> minimax (S d) p 0 = Ok v -> tree_ok (S d) p 0 ->
+  (forall ms m p' w, gen_legal p = Ok ms -> In m ms -> make_legal p (rm m) = Ok p' -> minimax d p' 1 = Ok w -> - w <= - LostScore - 1) ->
+  - InfinityScore < v -> iv r = v.
+Proof. exact root_search_i_value. Qed.
+(* the side condition is decidable by running the reference: minimax_s returns the value and whether the tree has a sensitive node *)
+Theorem C04_side_condition_computable : forall d p depth v s, minimax_s d p depth = Ok (v, s) -> minimax d p depth = Ok v /\ (s = false -> tree_ok d p depth).
+Proof. exact minimax_s_ok. Qed.
+
 Print Assumptions C04_alpha_beta.
+Print Assumptions C04_state_machine.
+Print Assumptions C04_state_machine_root.
+Print Assumptions C04_side_condition_computable.
 Print Assumptions C04_quiescence.
 Print Assumptions C04_in_window.
 Print Assumptions C04_root_value.
